@@ -205,6 +205,26 @@ func (e *Engine) registerIntrinsics() {
 		}
 		return c.ret(nil)
 	})
+	// AssertSat: the condition must be SATISFIABLE on this path (used for 2-safety statements of
+	// the form "x is not determined by y": there must be two runs agreeing on y and differing on x).
+	r(vnPkg+".AssertSat", func(c *CallCtx) []Outcome {
+		label := mustConstStr(c.args[0])
+		atomic.AddInt64(&c.e.stats.Obligations, 1)
+		c.e.mu.Lock()
+		c.e.oblLabels["assert-sat:"+label]++
+		c.e.mu.Unlock()
+		switch c.st.check(c.args[1].(*Term)) {
+		case Sat:
+			atomic.AddInt64(&c.e.stats.Discharged, 1)
+		case Unsat:
+			c.e.reportFinding(c.st, label, "determined", c.e.pos(c.pos), nil)
+		default:
+			atomic.AddInt64(&c.e.stats.UnknownObl, 1)
+			c.e.inconclusive("solver unknown on " + label)
+		}
+		return c.ret(nil)
+	})
+	r(vnPkg+".Check", e.intr[vnPkg+".Assert"])
 	r(vnPkg+".Cover", func(c *CallCtx) []Outcome {
 		label := mustConstStr(c.args[0])
 		c.e.coverCond(c.st, label, c.args[1].(*Term))
